@@ -1295,8 +1295,30 @@ def replay(ctx: Ctx, path: str) -> int:
     if not body.get("failing_input_found", True):
         print("no failing input was found; broken tie:", json.dumps(det, indent=1)[:3000])
         return 1
-    use_repo_librt(ctx)
+    librt_dir = use_repo_librt(ctx)
     cls = obs.get("class")
+    if cls == "bytes-depend-on-hash-seed":
+        import subprocess
+        from harness.vlib.core import PY, repo_env
+        root = os.path.join(ctx.tmp, "hs_src")
+        os.makedirs(root, exist_ok=True)
+        for m, text in det["sources"].items():
+            with open(os.path.join(root, m + ".py"), "w") as f:
+                f.write(text)
+        child = os.path.join(os.path.dirname(os.path.abspath(__file__)), "hashseed_child.py")
+        ext = "bin" if det["format"] == "binary" else "json"
+        dig = {}
+        for seed in det["hash_seeds"]:
+            out = os.path.join(ctx.tmp, "hs_out_" + seed)
+            env = repo_env({"PYTHONHASHSEED": seed})
+            env["PYTHONPATH"] = librt_dir + os.pathsep + env["PYTHONPATH"]
+            subprocess.run([PY, child, root, out] + sorted(det["sources"]), env=env, cwd=ctx.tmp, timeout=900, check=True,
+                           capture_output=True)
+            dig[seed] = json.load(open(os.path.join(out, "index.json")))[det["module"]][ext]
+            print(f"PYTHONHASHSEED={seed}: sha256({det['module']} {det['format']} data) = {dig[seed]}")
+        same = len(set(dig.values())) == 1
+        print("bytes are " + ("identical" if same else f"different (recorded field: {det.get('field')})"))
+        return 0 if same else 1
     if cls == "primitive-roundtrip":
         import librt.internal as li
         v = det.get("value")
